@@ -128,6 +128,7 @@ type Fn struct {
 	// Sub prepares another function of the library with the same configuration (for call summaries).
 	Sub   func(*ssa.Function) *Fn
 	depth int
+	valOf map[string]ssa.Value
 }
 
 // New prepares a function. immutable reports whether a field path (e.g. "r.file.len") may be treated as one
@@ -181,7 +182,65 @@ func (f *Fn) atom(v ssa.Value) string {
 		name = v.Name()
 	}
 	f.atoms[v] = name
+	if f.valOf == nil {
+		f.valOf = map[string]ssa.Value{}
+	}
+	if _, dup := f.valOf[name]; !dup {
+		f.valOf[name] = v
+	}
 	return name
+}
+
+// ProveAt proves goal at block b. When the plain proof fails and the goal mentions a value merged by a phi that is
+// not a loop variable, the proof is split over the phi's edges: on the paths through predecessor i the phi equals
+// its i-th operand and the facts of that predecessor hold as well.
+func (f *Fn) ProveAt(b *ssa.BasicBlock, goal Cons) bool {
+	return f.proveSplit(f.FactsAt(b), goal, 0, map[*ssa.Phi]bool{})
+}
+
+func (f *Fn) proveSplit(facts []Cons, goal Cons, depth int, done map[*ssa.Phi]bool) bool {
+	if Prove(facts, goal) {
+		return true
+	}
+	if depth >= 3 {
+		return false
+	}
+	var atoms []string
+	for a := range goal.E.Coef {
+		atoms = append(atoms, a)
+	}
+	sort.Strings(atoms)
+	for _, a := range atoms {
+		ph, ok := f.valOf[a].(*ssa.Phi)
+		if !ok || done[ph] || !isIntType(ph.Type()) {
+			continue
+		}
+		loop := false
+		for i := range ph.Edges {
+			if ph.Block().Dominates(ph.Block().Preds[i]) {
+				loop = true
+			}
+		}
+		if loop {
+			continue
+		}
+		done[ph] = true
+		all := true
+		for i, e := range ph.Edges {
+			fi := append([]Cons{}, facts...)
+			fi = append(fi, f.FactsAt(ph.Block().Preds[i])...)
+			fi = append(fi, Eq(Atom(a), f.Norm(e), "value of the merged variable on this path")...)
+			if !f.proveSplit(fi, goal, depth+1, done) {
+				all = false
+				break
+			}
+		}
+		delete(done, ph)
+		if all {
+			return true
+		}
+	}
+	return false
 }
 
 func (f *Fn) isFileLenPath(p string) bool {
